@@ -721,6 +721,13 @@ fn primitive<'s>(input: &mut &'s str) -> PResult<Option<BoundSet>, SemverParseEr
     Parser::map(
         (operation, preceded(space0, partial_version)),
         |parsed| match parsed {
+            // `>*` and `<*` admit nothing, every other operator on `*` admits anything.
+            (GreaterThan | LessThan, Partial { major: None, .. }) => {
+                BoundSet::at_most(Predicate::Excluding((0, 0, 0, 0).into()))
+            }
+            (_, Partial { major: None, .. }) => {
+                BoundSet::at_least(Predicate::Including((0, 0, 0).into()))
+            }
             (GreaterThanEquals, partial) => {
                 BoundSet::at_least(Predicate::Including(partial.into()))
             }
@@ -933,10 +940,19 @@ fn partial_version<'s>(input: &mut &'s str) -> PResult<Partial, SemverParseError
     } else {
         (vec![], vec![])
     };
+    // Once a component is a wildcard, everything after it is one too
+    // (`1.x.3` is `1.x.x`), and a wildcard version carries no qualifier.
+    let minor = major.and(minor.flatten());
+    let patch = minor.and(patch.flatten());
+    let (pre, build) = if patch.is_some() {
+        (pre, build)
+    } else {
+        (vec![], vec![])
+    };
     Ok(Partial {
         major,
-        minor: minor.flatten(),
-        patch: patch.flatten(),
+        minor,
+        patch,
         pre_release: pre,
         build,
     })
@@ -964,6 +980,9 @@ fn tilde_gt<'s>(input: &mut &'s str) -> PResult<Option<&'s str>, SemverParseErro
 
 fn tilde<'s>(input: &mut &'s str) -> PResult<Option<BoundSet>, SemverParseError<&'s str>> {
     Parser::map((tilde_gt, partial_version), |parsed| match parsed {
+        (_, Partial { major: None, .. }) => {
+            BoundSet::at_least(Predicate::Including((0, 0, 0).into()))
+        }
         (
             Some(_gt),
             Partial {
@@ -1048,6 +1067,9 @@ fn caret<'s>(input: &mut &'s str) -> PResult<Option<BoundSet>, SemverParseError<
     Parser::map(
         preceded((literal("^"), space0), partial_version),
         |parsed| match parsed {
+            Partial { major: None, .. } => {
+                BoundSet::at_least(Predicate::Including((0, 0, 0).into()))
+            }
             Partial {
                 major: Some(0),
                 minor: None,
@@ -1118,18 +1140,7 @@ fn hyphen<'s>(input: &mut &'s str) -> PResult<Option<BoundSet>, SemverParseError
         let _ = space1(input)?;
         let upper = partial_version(input)?;
         let upper = match upper {
-            Partial {
-                major: None,
-                minor: None,
-                patch: None,
-                ..
-            } => Predicate::Excluding(Version {
-                major: 0,
-                minor: 0,
-                patch: 0,
-                pre_release: vec![Identifier::Numeric(0)],
-                build: vec![],
-            }),
+            Partial { major: None, .. } => Predicate::Unbounded,
             Partial {
                 major: Some(major),
                 minor: None,
@@ -1161,6 +1172,8 @@ fn hyphen<'s>(input: &mut &'s str) -> PResult<Option<BoundSet>, SemverParseError
                 Bound::Lower(Predicate::Including(lower.into())),
                 Bound::Upper(upper),
             )
+        } else if upper == Predicate::Unbounded {
+            BoundSet::at_least(Predicate::Including((0, 0, 0).into()))
         } else {
             BoundSet::at_most(upper)
         };
